@@ -237,8 +237,8 @@ ASSUMPTIONS = [
     "liveness probing and store re-resolution are not modelled; equal-score random choice is modelled as a choice set",
     "the theorems are about the accounting model; that the real retry loop's event sequences are accepted by the model is checked on the "
     "explored scripts only (exhaustive-small + sampled), not proved",
-    "boundedness is relative to the number H of NotLeader replies that carry a leader hint: the model grants one attempt refill "
-    "(replica.onUpdateLeader) per scripted hint; the implementation follows an endless hint cycle forever (known finding)",
+    "leader hints: the first #replicas redirects of a call are free, every further one owes a regionScheduling back-off "
+    "(replicaSelector.leaderHintRedirects, repaired hint cycle); the termination theorem has no hint-cycle exclusion",
     "sleeping is virtualised by the failpoint fastBackoffBySkipSleep; RPCs take no wall time, so maxReplicaAttemptTime never triggers",
     "write requests enter SendReqCtx with StaleRead=false (no client-go call site flags a write as stale read); ReplicaRead may be pre-set "
     "as tikvrpc.NewReplicaReadRequest does",
